@@ -157,4 +157,19 @@ theorem C31_tgen_writeback_meta : has_rewrite_meta_keep = "yes" ∧ n_rewrite_me
 theorem C06_tgen_writeback_fields :
     has_rewrite_meta_keep = "yes" ∧ has_rewrite_umeta_copy = "yes" ∧ has_rewrite_exp_copy = "yes" := by decide
 theorem C33_tgen_writeback_expiry : has_rewrite_exp_copy = "yes" := by decide
+/-- C12 / C36 rest on the same shape of the read path as C01: every level is consulted (no early
+    `break`), so a compaction that moves a version to another level cannot change which version a
+    `Get` returns (seed family lcget-break, C12f). -/
+theorem C12_tgen_get_shape :
+    n_break_lcget = 0 ∧ n_return_lcget = 4 ∧ n_break_dbget = 0 ∧ n_break_lhget = 0 := by decide
+theorem C36_tgen_get_shape :
+    n_break_lcget = 0 ∧ n_return_lcget = 4 ∧ n_break_dbget = 0 ∧ n_break_lhget = 0 := by decide
+/-- reader / compactor protocol (`Props/C01Levels.lean`): lookups and iterator creation walk the levels
+    from 0 downwards; a compaction publishes on the next level before it deletes from this level. -/
+theorem C01_tgen_level_scan_order :
+    has_lcget_range_levels = "yes" ∧ has_appenditers_range_levels = "yes" ∧
+    ord_compact_replace_delete = "before" := by decide
+theorem C12_tgen_level_scan_order :
+    has_lcget_range_levels = "yes" ∧ has_appenditers_range_levels = "yes" ∧
+    ord_compact_replace_delete = "before" := by decide
 end Badger
